@@ -113,8 +113,8 @@ MUTANTS = [
      "            if species_lca.is_ancestor_of(rec[node], rec[left_node])\n            else right_dist", "            if species_lca.is_ancestor_of(rec[left_node], rec[node])\n            else right_dist"),
     ("entry-max-never-ties", ["C16"], "src/superrec2/utils/dynamic_programming.py",
      "            if self._value == value:\n                if info and", "            if self._value == value and (is_min or not self._infos or len(candidates) == 1):\n                if info and"),
-    ("triples-all-trees-skip-consistency", ["C20"], "src/superrec2/utils/trees.py",
-     "    if tree_from_triples(leaves, triples) is None:\n        return []", "    if len(leaves) < 5 and tree_from_triples(leaves, triples) is None:\n        return []"),
+    # removed as EQUIVALENT: "triples-all-trees-skip-consistency" (skipping the consistency pre-check of all_trees_from_triples
+    # for >= 5 leaves): the pre-check is an optimisation only - 0 differences on 3000 random triple sets over 5-7 leaves
     ("layout-speciation-swap-test", ["C13", "C14"], "src/superrec2/render/layout.py",
      "                    if species_lca.is_ancestor_of(left_species, mapping[right_gene]):", "                    if species_lca.is_strict_ancestor_of(left_species, mapping[right_gene]):"),
     # ---- serialisation / CLI
